@@ -14,7 +14,7 @@ DROP = {"start", "prog.end"}
 def _schema_ok(e):
     ev, d = e["ev"], e["d"]
     try:
-        if ev in ("loop.wait", "clear.begin", "ntf.snap", "stop.join", "stop.pool", "stop.drain", "loop.end", "iter.end", "iter.drop"):
+        if ev in ("loop.wait", "clear.begin", "ntf.snap", "stop.join", "stop.pool", "stop.drain", "red.begin", "mw.check", "loop.end", "iter.end", "iter.drop"):
             return d == 0
         if ev in ("send.full", "ch.txlock", "ch.join", "chloop.wait", "chloop.exit", "chfwd.begin"):
             return isinstance(d["ch"], str)
@@ -25,6 +25,8 @@ def _schema_ok(e):
             return isinstance(it["a"], int) and isinstance(it["st"], list)
         if ev == "loop.wrote":
             return isinstance(d["st"], list)
+        if ev == "loop.recv":
+            return isinstance(d["item"], int)
         if ev == "eff.spawn":
             return isinstance(d["n"], int)
         if ev == "send.end":
